@@ -89,9 +89,12 @@ def emit_sites(ctx):
                 seen.add(f.qualname)
                 for cs in sites:
                     arg = cs.call.args[-1]
-                    parts = template_parts(arg)
-                    if parts is None:
-                        parts = template_parts(fv.res.resolve(arg, cs.node))
+                    arms = fv.template_arms(arg, cs.node)
+                    if arms:
+                        for tmpl, at in arms:
+                            out.append((f, fv, cs, _expand(fv, template_parts(tmpl), at)))
+                        continue
+                    parts = template_parts(fv.res.resolve(arg, cs.node))
                     if parts is not None:
                         parts = _expand(fv, parts, cs.node)
                     out.append((f, fv, cs, parts))
